@@ -48,6 +48,9 @@ func (c *Ctx) wrapGeneral(v Term, t types.Type) Term {
 
 // tdiv / trem: Go's truncated division on mathematical integers.
 func tdiv(a, b Term) Term {
+	if c, ok := litValue(b); ok && c.Sign() > 0 {
+		return ite(app(SBool, ">=", a, intLit(0)), app(SInt, "div", a, b), app(SInt, "-", app(SInt, "div", app(SInt, "-", a), b)))
+	}
 	neg := func(x Term) Term { return app(SInt, "-", x) }
 	ge0 := func(x Term) Term { return app(SBool, ">=", x, intLit(0)) }
 	gt0 := func(x Term) Term { return app(SBool, ">", x, intLit(0)) }
@@ -58,6 +61,9 @@ func tdiv(a, b Term) Term {
 }
 
 func trem(a, b Term) Term {
+	if c, ok := litValue(b); ok && c.Sign() > 0 {
+		return ite(app(SBool, ">=", a, intLit(0)), app(SInt, "mod", a, b), app(SInt, "-", app(SInt, "mod", app(SInt, "-", a), b)))
+	}
 	// a - b*tdiv(a,b); for a >= 0, b > 0 this is mod
 	return ite(and(app(SBool, ">=", a, intLit(0)), app(SBool, ">", b, intLit(0))),
 		app(SInt, "mod", a, b),
